@@ -144,6 +144,7 @@ type source struct {
 	body   []byte
 	nextW  int
 	wlen   int // length of the Write being answered
+	curOp  string
 }
 
 var mediaTypes = []string{"application/octet-stream", "application/vnd.oci.image.manifest.v1+json",
@@ -203,17 +204,19 @@ func (s *source) next(typ string, digestHint string) ResSpec {
 		}
 		return ResSpec{Kind: "err", Err: &ErrSpec{Kind: "plain", Msg: "script exhausted"}}
 	}
+	// the server wraps the errors of Write and (in the PATCH handler) Close with %w: see errs.go
+	ill := s.ill && s.curOp != "WWrite" && s.curOp != "WClose"
 	if typ == "write" {
 		switch k := s.rnd.Intn(20); {
 		case k == 0 && s.wlen > 0:
 			return ResSpec{Kind: "n", N: int64(s.wlen - 1)} // short write
 		case k <= 2:
-			return ResSpec{Kind: "err", Err: randErr(s.rnd, s.rnd.Intn(2), s.ill)}
+			return ResSpec{Kind: "err", Err: randErr(s.rnd, s.rnd.Intn(2), ill)}
 		}
 		return ResSpec{Kind: "n", N: int64(s.wlen)}
 	}
 	if typ != "n" && typ != "str" && s.rnd.Intn(1000) < s.errP {
-		return ResSpec{Kind: "err", Err: randErr(s.rnd, s.rnd.Intn(3), s.ill)}
+		return ResSpec{Kind: "err", Err: randErr(s.rnd, s.rnd.Intn(3), ill)}
 	}
 	var iterErr *ErrSpec
 	switch typ {
@@ -241,7 +244,7 @@ func (s *source) next(typ string, digestHint string) ResSpec {
 			n = 0
 		}
 		if s.rnd.Intn(6) == 0 {
-			iterErr = randErr(s.rnd, s.rnd.Intn(2), s.ill)
+			iterErr = randErr(s.rnd, s.rnd.Intn(2), ill)
 		}
 		if typ == "list" {
 			items := make([]string, n)
@@ -289,6 +292,7 @@ type backend struct {
 }
 
 func (b *backend) call(op string, typ string, strs []string, ints []int64, desc *DescSpec, data []byte, w int, hint string) ResSpec {
+	b.src.curOp = op
 	r := b.src.next(typ, hint)
 	b.log = append(b.log, Event{Kind: "call", Op: op, Strs: strs, Ints: ints, Desc: desc, Data: data, W: w, Res: &r})
 	return r
